@@ -126,7 +126,7 @@ PROPS = {
     assumptions=['well-formedness required by the wire format is explicit in the theorems; the excluded points are the known findings F11a-c'],
  ),
  'C20': dict(
-    group='conc', only=['cond'], ops=['cond'],
+    group='conc', only=['cond'], ops=['cond'], build_flags=['-race'],
     klass=lambda c: 'cond:events' + str(c['args'][0].count(',') + 1),
     modules=['Ysshra.Props.C20', 'Ysshra.Bridge.Wire'],
     theorem_files=['Props/C20.lean', 'Bridge/Wire.lean'],
@@ -273,6 +273,20 @@ PROPS = {
     trusted_base=["crypto/tls, crypto/x509, gRPC and grpc_retry implement the handshake, chain building and retry policy (the TLS acceptance rule is Go's documented client behaviour, exercised by real handshakes)", 'ssh.ParseAuthorizedKey decides which reply lines are keys', 'IEEE-754 arithmetic of Backoff is only sampled (bound proved over Q)'],
     assumptions=['that crypto/tls implements clientAccepts is assumed (partial)'],
  ),
+ 'C11': dict(
+    group='conc', only=['race'], ops=['race'], build_flags=['-race'],
+    klass=lambda c: 'race:goroutines' + c['args'][0],
+    modules=['Ysshra.Props.C11'],
+    theorem_files=['Props/C11.lean'],
+    anchors=['agent/shimagent/shimserver.go'],
+    n=dict(quick=80, thorough=1500),
+    timeout=dict(quick=900, thorough=3400),
+    trivial=lambda c: False,
+    rule='stress scenarios against one real shim agent behind yubiagent.ServeAgent in a race-detector-instrumented child process: 2..16 goroutines x 20..50 operations each (list, sign with caller-specific data, add / remove of a caller-owned key, add-hardware-certificate valid / expired, expired certificates injected into the underlying agent so that listings purge, raw forward and extension requests with caller-specific payloads; Signers / Extension / some Forward calls made in-process on the shared agent since the wire protocol does not reach them). '
+         'Checked: no data race report, every reply carries the caller\'s own payload / verifies over the caller\'s own data, no operation hangs, final underlying identity set equals the sequential effect. Every scenario is non-trivial; distinct = distinct argument fields.',
+    trusted_base=['Go race detector and scheduler (schedules are sampled, not enumerated)', 'the regenerated lock table is a syntactic summary of shimserver.go (first statement, defer, transitive field accesses) produced by /verif/extract'],
+    assumptions=['Go memory model / scheduler are not modelled (partial): the theorem is about the locking discipline the source exhibits'],
+ ),
 }
 
 NOT_APPLICABLE = {}
@@ -403,4 +417,10 @@ MANIFEST_TEXT = {
     design_ref='DESIGN.md §7 C18',
     note=_NOTE + 'crypto/tls and crypto/x509 path validation are the reference (partial).',
     technique='Lean 4 proof over the regenerated TLS configuration record + real-handshake correspondence'),
+ 'C11': dict(
+    text='Lean theorems: for a reader-writer lock and threads that take their method\'s lock first and release on return, mutual exclusion (an exclusive holder is alone) is an invariant of every scheduling step, hence of every interleaving; under the discipline "writers and connection users hold it exclusively, readers at least shared" no reachable state has two threads inside with a write by one and an access by the other to the same cell (the single upstream connection is a cell). '
+         'The discipline is proved (by decide) of the method table regenerated from shimserver.go each run — including Signers and Extension (F7). Supported by race-detector stress runs with own-reply and final-state checks.',
+    design_ref='DESIGN.md §7 C11',
+    note=_NOTE + 'Go scheduler / memory model not modelled (partial).',
+    technique='Lean 4 proof (invariant over all interleavings of a lock model) over a regenerated lock table + race-detector schedule sampling'),
 }
